@@ -117,7 +117,7 @@ pub fn gen_dir_name(rng: &mut Rng) -> String {
 
 pub const DIR_NAMES: &[&str] = &[
     "sub", "lib", "deep", "a b", "lib.sol", "test.t.sol", "z", "0", "\u{e9}t\u{e9}", ".git", ".hidden",
-    "node_modules", "test", "tests", "mocks", "out", "cache", "Contracts", "SRC",
+    "node_modules", "test", "tests", "mocks", "Mocks", "out", "cache", "Contracts", "contracts", "SRC", "src", "Lib", "LIB",
 ];
 
 #[derive(Clone, Copy, Debug, PartialEq, Eq, Hash, PartialOrd, Ord)]
@@ -286,9 +286,53 @@ pub fn gen_tree(
                 if world.nodes.contains_key(&p) {
                     continue;
                 }
-                let text = screen.gen_text(rng);
+                let mut text = screen.gen_text(rng);
+                // sometimes a different text of exactly the same byte length as an existing file
+                if !info.eligible.is_empty() && rng.chance(1, 6) {
+                    let other = rng.pick(&info.eligible).clone();
+                    if let Some((ob, _)) = world.file(&other) {
+                        let target = ob.len();
+                        for _ in 0..6 {
+                            if text.len() + 3 <= target && text.as_bytes() != ob.as_slice() {
+                                let padded = format!("{}//{}\n", text, "x".repeat(target - text.len() - 3));
+                                if screen.ok(&padded) {
+                                    text = padded;
+                                }
+                                break;
+                            }
+                            text = screen.gen_text(rng);
+                        }
+                    }
+                }
                 world.put_file(&p, text.into_bytes(), Fault::None);
                 info.eligible.push(p);
+                // sometimes a sibling whose name differs only in letter case (a different file on a
+                // case-sensitive file system)
+                if rng.chance(1, 10) {
+                    let stem_len = name.len().saturating_sub(4);
+                    let swapped: String = name
+                        .chars()
+                        .enumerate()
+                        .map(|(i, c)| {
+                            if i < stem_len && c.is_ascii_lowercase() {
+                                c.to_ascii_uppercase()
+                            } else if i < stem_len && c.is_ascii_uppercase() {
+                                c.to_ascii_lowercase()
+                            } else {
+                                c
+                            }
+                        })
+                        .collect();
+                    let q = join(d, &swapped);
+                    if swapped != name
+                        && crate::model::eligible_name(&swapped)
+                        && !swapped.to_lowercase().contains(".t.sol")
+                        && !world.nodes.contains_key(&q)
+                    {
+                        world.put_file(&q, screen.gen_text(rng).into_bytes(), Fault::None);
+                        info.eligible.push(q);
+                    }
+                }
             }
         }
     }
